@@ -102,6 +102,12 @@ func c14Configs() []dcfg {
 		{{Sources: []dacc{aMfee}, Primary: aMAIN, Shares: []dshare{{u2, "0.5"}}, Burn: "0.01"}, {Sources: []dacc{aMAIN}, Primary: aVRC, Burn: "0.5"}},
 		{{Sources: []dacc{aMfee, u1}, Primary: aVRC, Shares: []dshare{{aMAIN, "0.333333333333333333"}}, Burn: "0"}, {Sources: []dacc{aMAIN}, Primary: u2, Burn: "0.01"}},
 	}
+	// a bank-backed account that is destination of one sub-distributor and source of a later one
+	// (pass-through): it carries recorded remains of its own when its sweep fails
+	out = append(out,
+		dcfg{{Sources: []dacc{aMAIN}, Primary: u1, Shares: []dshare{{u2, "0.333333333333333333"}}, Burn: "0.01"}, {Sources: []dacc{u1}, Primary: aVRC, Shares: []dshare{{aMgeb, "0.05"}}, Burn: "0"}},
+		dcfg{{Sources: []dacc{aMfee, aMAIN}, Primary: aMgeb, Shares: []dshare{{u2, "0.5"}}, Burn: "0"}, {Sources: []dacc{aMgeb}, Primary: u2, Shares: []dshare{{aVRC, "0.333333333333333333"}}, Burn: "0.01"}},
+	)
 	out = append(out, distChains()...)
 	return out
 }
